@@ -259,7 +259,7 @@ def signature(case, real, exp, xf, res):
 def main():
     chk = Check("C01", "translation_validation", FUNCTIONS)
     conv = get_convention(chk)
-    cases = make_cases(chk) + shipped_cases(chk)
+    cases = make_cases(chk)
     results = run_driver([{"id": c["id"], "steps": c["steps"]} for c in cases], tag="c01")
     jobs = [(c, results[c["id"]], conv, i % 8 == 0) for i, c in enumerate(cases)]
     with Pool(16) as pool:
@@ -405,14 +405,20 @@ def pattern_worker(args):
 
 
 def shipped_pattern_directed(chk, conv):
-    """thorough tier: res/nn/mnist-5-5.npz (20 ReLUs, thousands of regions) decided region by region"""
+    """thorough tier: the networks shipped with the repository (iris, iris_44, ecoli, mnist-5-5: up to 20 ReLUs and
+    thousands of regions) decided region by region with the pattern-directed encoding"""
     if chk.tier != "thorough":
         return
-    path, n = "/repo/res/nn/mnist-5-5.npz", 7
+    for path, n in SHIPPED + [("/repo/res/nn/mnist-5-5.npz", 7)]:
+        shipped_one(chk, conv, path, n)
+
+
+def shipped_one(chk, conv, path, n):
+    name = os.path.basename(path)
     steps = [{"op": "read_layers", "name": "L", "path": path}, {"op": "from_layers", "name": "t", "dim": n, "layers": "L"}, {"op": "export", "tree": "t"}]
     res = run_driver([{"id": "mnist", "steps": steps}], profile="release", tag="c01m")["mnist"]
     if step_panics(res):
-        chk.report("C01/afftree_from_layers/panic", "mnist-5-5 does not distill: %s" % step_panics(res)[0][1],
+        chk.report("C01/afftree_from_layers/panic", "%s does not distill: %s" % (name, step_panics(res)[0][1]),
                    {"kind": "panic", "case": {"id": "mnist", "steps": steps}})
         return
     layers = netref.layers_from_driver(res[0]["out"]["layers"])
@@ -431,13 +437,13 @@ def shipped_pattern_directed(chk, conv):
         decided += o["decided"]
         thin += o["thin"]
         for u in o["undecided"]:
-            chk.undecide("mnist-5-5 terminal %d" % u, "solver unknown/timeout")
+            chk.undecide("%s terminal %d" % (name, u), "solver unknown/timeout")
         cands += o["cands"]
     chk.programs += 1
-    chk.nontrivial.add("mnist-5-5")
+    chk.nontrivial.add(name)
     chk.oblige(True, decided)
     chk.tolerance_band += thin
-    chk.cov["mnist_5_5"] = {"terminals": len(T.terminals()), "examined": len(terms), "decided": decided, "thinner_than_tau": thin,
+    chk.cov.setdefault("shipped_networks", {})[name] = {"terminals": len(T.terminals()), "examined": len(terms), "decided": decided, "thinner_than_tau": thin,
                             "counterexample_candidates": len(cands), "relu_units": netref.n_units(layers)}
     # native replay of candidates
     if cands:
@@ -448,9 +454,9 @@ def shipped_pattern_directed(chk, conv):
             exp = netref.net_exact(layers, xf)[0]
             d = value_mismatch(real, exp, tol=EPS)
             if d is None:
-                chk.unreplayed.append("mnist-5-5 terminal %d (%s) at %s: does not reproduce natively" % (c["node"], c["kind"], c["point"][:3]))
+                chk.unreplayed.append("%s terminal %d (%s) at %s: does not reproduce natively" % (name, c["node"], c["kind"], c["point"][:3]))
             else:
-                chk.report("C01/afftree_from_layers/shipped-mnist/" + c["kind"], "mnist-5-5 at x=%s: %s" % ([float(v) for v in xf], d),
+                chk.report("C01/afftree_from_layers/shipped/" + c["kind"], "%s at x=%s: %s" % (name, [float(v) for v in xf], d),
                            {"kind": "eval", "case": {"id": "mnist", "steps": steps}, "tree": "t", "point": point_hex(xf),
                             "expected": [str(e) for e in exp]})
 
